@@ -10,10 +10,11 @@
 // inspection of the node value.
 //
 // Oracle (only what the statement says):
-//   - a level "lacks CurrentRead" iff the attribute is present AND Byte-typed AND
-//     bit 0 is clear; "lacks CurrentWrite" iff present AND Byte-typed AND bit 1
-//     is clear. An absent attribute, an attribute of another type and a
-//     DataValue without value cannot lack a bit: nothing is asserted for them.
+//   - a level "lacks CurrentRead" iff the attribute is present AND (it is a Byte
+//     with bit 0 clear, OR it has no value at all / a null Variant, OR it has a
+//     value of another type whose number has bit 0 clear); CurrentWrite: bit 1.
+//     An absent attribute cannot lack a bit, and a wrong-typed value whose
+//     number has the bit set is not judged: nothing is asserted for them.
 //   - read of a node where either level lacks CurrentRead: the result carries
 //     no Variant value;
 //   - write of a node where either level lacks CurrentWrite: the per-node
@@ -48,7 +49,7 @@ import (
 
 func TestMain(m *testing.M) { ev.Main(m) }
 
-var rec = ev.For("C31", "rapid-generated nodes (1-4 per case; AccessLevel x UserAccessLevel each in {absent, Byte, UInt32, Int32, String, ByteString, DataValue without Value, null Variant}; node ids string/numeric/guid/opaque) x sequences of 1-12 operations (client Read / Write of the Value attribute with 1-4 nodes per request, server-side change of a level attribute); non-trivial = at least one read or write for which the oracle asserted a refusal (a present Byte-typed level lacking the bit) was executed; distinct by hash of the case JSON")
+var rec = ev.For("C31", "rapid-generated nodes (1-4 per case; AccessLevel x UserAccessLevel each in {absent, Byte, UInt32, Int32, String, ByteString, DataValue without Value, null Variant}; node ids string/numeric/guid/opaque) x sequences of 1-12 operations (client Read / Write of the Value attribute with 1-4 nodes per request, server-side change of a level attribute); non-trivial = at least one read or write for which the oracle asserted a refusal (a present level that does not hold the bit) was executed; distinct by hash of the case JSON")
 
 // ---------------------------------------------------------------------------
 // case data (plain JSON)
@@ -226,8 +227,22 @@ func (l level) dataValue() *ua.DataValue {
 	return nil
 }
 
-// lacks reports whether the level is a present Byte-typed attribute without the bit.
-func (l level) lacks(bit uint32) bool { return l.Kind == "byte" && l.Val&bit == 0 }
+// lacks reports whether the level attribute is present and does not hold the
+// bit: a Byte without the bit; a DataValue without a value or with a null
+// Variant (it holds no bits at all - "an attribute without a value grants
+// nothing", server/node.go); a value of another type whose number (or whose
+// text / single byte read as a number) has the bit clear, so that even a
+// lenient reading of the type finds no bit. A wrong-typed value whose number
+// has the bit set is not judged. (Extended after seeded change C31-B.)
+func (l level) lacks(bit uint32) bool {
+	switch l.Kind {
+	case "byte", "uint32", "int32", "string", "bytestring":
+		return l.Val&bit == 0
+	case "novalue", "nullvariant":
+		return true
+	}
+	return false // absent
+}
 
 func (l level) String() string {
 	switch l.Kind {
@@ -498,7 +513,7 @@ func run(c caseT) (v verdict) {
 // ---------------------------------------------------------------------------
 
 func TestAccess(t *testing.T) {
-	rec.Assume("a level lacks a bit only if the attribute is present and Byte-typed; absent, wrong-typed and value-less level attributes are generated but nothing is asserted for them")
+	rec.Assume("a level lacks a bit iff the attribute is present and holds no such bit: Byte without the bit, a DataValue without value / null Variant, or a value of another type whose number has the bit clear; absent level attributes and wrong-typed values whose number has the bit set are generated but nothing is asserted for them")
 	rec.Assume("one in-process server and one anonymous session (policy None) per process, fresh nodes per case; server-side inspection through Server.Node(id).Value() and NodeNameSpace.Node(id).Value()")
 	if _, _, err := fixture(); err != nil {
 		t.Fatalf("infrastructure: %v", err)
